@@ -447,4 +447,7 @@ def restyle(line, r, numbers=True):
 
 
 SKIP_LINES = [b"", b"   ", b"\t", b"label:", b"  loop_1:  ", b"section .text", b"global foo", b"; just a comment",
-              b"SECTION .data", b"Global Bar", b"x: ; y"]
+              b"SECTION .data", b"Global Bar", b"x: ; y",
+              # the same directives as nasm -E prints them and in other positions of the line
+              b"[section .text]", b"[global main]", b"[SECTION .text] ; code", b"\t[ Global main ]", b".section .text", b"  section  .bss  ",
+              b"% define x 1", b"foo.bar:", b"a: b:", b"section", b"global", b"my_global_sym:", b"_start:  ; entry"]
